@@ -88,6 +88,26 @@ def roundtrip(ctx, program):
             ctx.violation('C15:round-trip-changes-circuit', f'after {cycle} save/load cycle(s): {diff}', dict(rep, cycle=cycle))
             return
         if cycle == 1:
+            # through a file: ONE path is rewritten with every drawing of the run and must give back the drawing just written
+            try:
+                import os
+                import tempfile
+                path = os.path.join(tempfile.gettempdir(), f'c15_drawing_{os.getpid()}.json')
+                sdl.dump(path, cur)
+                from_file = translated(sdl.load(path))
+                ctx.count('saved-to-and-loaded-from-one-rewritten-path')
+                diff = same_circuit(base, from_file)
+                if diff:
+                    ctx.violation('C15:file-round-trip-changes-circuit', f'dump(path) then load(path): {diff} (the path held other drawings before)', rep)
+                    return
+            except Exception as e:  # noqa: BLE001
+                ctx.violation(f'C15:file-round-trip-raises-{type(e).__name__}', str(e)[:120], rep)
+                return
+            finally:
+                try:
+                    os.remove(path)
+                except Exception:  # noqa: BLE001
+                    pass
             # loading the same text again in the same process must give the same circuit
             try:
                 again_d = sdl.deserialize(text, 'json')
